@@ -13,6 +13,13 @@ from sa.facts import Program
 from sa.pipeline import BACKENDS, CONFIGS
 
 
+DECLARED_NEVER_IMPLEMENTED = {
+    "tGswAddTo": "tgsw_functions.h; no definition and no caller anywhere in the repository",
+    "tGswFFTMulByXaiMinusOne": "tgsw_functions.h; no definition and no caller anywhere in the repository",
+    "tGswSymDecryptInt": "tgsw_functions.h; no definition and no caller anywhere in the repository",
+}
+
+
 def run(chk):
     prog = Program()
     chk.explanation = (
@@ -76,6 +83,7 @@ def run(chk):
                     bad="C++ linkage: the symbol is mangled, C clients cannot link", nontrivial=False)
     # R4 symbol surface
     surfaces = {}
+    ref_all_defined = set()
     for v in prog.variants():
         chk.analysed["variants"] = chk.analysed.get("variants", 0) + 1
         cands = [f for f in v.defined() if f.get("kind") == "function" and f.get("externC") and not f.get("static")]
@@ -94,6 +102,7 @@ def run(chk):
             defined |= set(asm.globals_of(prog.asm_text(u)))
         pub = {f.name for f in api.public_functions(v).values() if f.name in c99fun}
         surfaces[v.name] = (defined & pub, pub)
+        ref_all_defined |= defined
     ref_name = sorted(surfaces)[0]
     ref = surfaces[ref_name][0]
     chk.set_count("R4.public_symbols_defined", len(ref))
@@ -101,8 +110,18 @@ def run(chk):
         chk.require(s == ref, "R4", "%s defines the same public functions as %s" % (vn, ref_name),
                     ok="%d public functions defined" % len(s),
                     bad="only here: %s; missing here: %s" % (sorted(s - ref)[:6], sorted(ref - s)[:6]), variant=vn)
+    # declared for C clients and defined in no variant: a client that calls it cannot link against any of the libraries.  Three such
+    # declarations exist upstream (never implemented; confirmed by reading: no definition, no caller); anything else is a violation.
     never = sorted(surfaces[ref_name][1] - ref)
-    if never:
-        chk.note("declared in public headers and defined in no variant (identical across variants): %s" % never)
+    for nme in never:
+        if nme in DECLARED_NEVER_IMPLEMENTED:
+            chk.note("declared in a public header and never implemented upstream (%s): %s" % (DECLARED_NEVER_IMPLEMENTED[nme], nme))
+            continue
+        decl = next((f for f in c99["functions"] if f["name"] == nme), None)
+        near = sorted(d_ for d_ in ref_all_defined if d_.lower() == nme.lower() and d_ != nme)
+        chk.refuted("R4", "%s is defined by the libraries" % nme, where=decl["loc"] if decl else "",
+                    detail="declared in a public header for C clients and defined in none of the %d variants%s: a program that calls it does not "
+                           "link against any back-end library" % (len(surfaces), "; a definition named %s exists (spelling differs)" % near[0] if near else ""))
+    chk.set_count("R4.public_functions_declared", len(surfaces[ref_name][1]))
     # R5 / R6
     asm.check_c20_offsets(chk, prog)
